@@ -337,7 +337,7 @@ func (c *cmafIngester) start(ctx context.Context) {
 	lastSegNrToSend := -1
 
 	if c.nrSegsToSend != nil {
-		lastSegNrToSend = nextSegNr + *c.nrSegsToSend
+		lastSegNrToSend = nextSegNr + *c.nrSegsToSend - 1
 	}
 	if lastSegNrToSend > 0 {
 		c.log.Debug("First and last segment number to send", "first", nextSegNr, "last", lastSegNrToSend)
